@@ -95,7 +95,7 @@ class MySQLQueryBuilder(QueryBuilder):
 
         self._for_update_nowait = False
         self._for_update_skip_locked = False
-        self._for_update_of = set()
+        self._for_update_of = []
 
     def __copy__(self) -> "MySQLQueryBuilder":
         newone = super().__copy__()
@@ -111,7 +111,7 @@ class MySQLQueryBuilder(QueryBuilder):
         self._for_update = True
         self._for_update_skip_locked = skip_locked
         self._for_update_nowait = nowait
-        self._for_update_of = set(of)
+        self._for_update_of = list(dict.fromkeys(of))
 
     @builder
     def on_duplicate_key_update(self, field: Union[Field, str], value: Any) -> "MySQLQueryBuilder":
@@ -426,7 +426,7 @@ class PostgreSQLQueryBuilder(QueryBuilder):
 
         self._for_update_nowait = False
         self._for_update_skip_locked = False
-        self._for_update_of = set()
+        self._for_update_of = []
 
     def __copy__(self) -> "PostgreSQLQueryBuilder":
         newone = super().__copy__()
@@ -451,7 +451,7 @@ class PostgreSQLQueryBuilder(QueryBuilder):
         self._for_update = True
         self._for_update_skip_locked = skip_locked
         self._for_update_nowait = nowait
-        self._for_update_of = set(of)
+        self._for_update_of = list(dict.fromkeys(of))
 
     @builder
     def on_conflict(self, *target_fields: Union[str, Term]) -> "PostgreSQLQueryBuilder":
